@@ -42,6 +42,14 @@ CLAIMED = {
    technique="Lean 4 proof over tables regenerated from source: bit-level channel mapping of every accepted format, accept-or-announce for every pixel-format block, advertised encodings for all option combinations + differential correspondence with rendered probe pixels",
    text="Lean theorems with PF2IM / RGB32 / BGR16 / SUPPORTED_ENCODINGS / factory defaults extracted from the source on this run: C13_modes (for every accepted format and every pixel value the raw mode the client renders with yields exactly the RFC's red/green/blue channels), C13_mode_size (rendering and framing use the same pixel size), C13_accept_or_set and C13_in_force (any native format the client can render is kept, anything else is replaced by an announced RGB32 / BGR16-for-3.889, and the format the client interprets data in changes only together with the SetPixelFormat it writes), C13_pf_stable (no later state changes it), C13_encodings / C13_only_supported / C13_numbers / C13_defaults (the advertised list is exactly preferred + the pseudo-encodings the options ask for, all decodable). Correspondence: random 16-byte blocks x versions x 32 option combinations x preferred encodings on the real library/CLI clients, writes after ServerInit and rendered probe pixels compared with the RFC and the model; BGR16 exhaustively (65536 values) in the thorough tier.",
    note="Trusted: Lean kernel + standard axioms; Pillow raw modes as exact pixel functions (compared on probes). Hypothesis: the preferred encoding is a real encoding with a decoder."),
+ "C10": dict(engine="Script", design_ref="DESIGN.md section 8 C10",
+   technique="Lean 4 proof: the model of build_command_list accepts exactly the sentences of the command grammar with exactly their operations (soundness, completeness, uniqueness, include, reject) + differential correspondence and an independent grammar recogniser against the implementation",
+   text="Lean theorems: C10_sound and C10_complete (compile = ok cs iff the word list is a sentence of the grammar of VncSpec/Grammar.lean with exactly the operations cs, in order - all commands and aliases, arities and argument types, script files standing for their tokenised contents, to any nesting depth), C10_unique, C10_include, C10_reject / C10_reject_general / C10_no_parse (a word that is neither a command nor an existing file: no operation list at all), C10_capture_ext with SUPPORTED_FORMATS re-extracted from the source (C10_formats), C10_command_words (only the exact command words are commands). Correspondence: generated scripts (all commands, aliases, bad arities/types, near-miss words, nested script files written to a temp dir with quoting and comments, capture extensions, delay/warp settings) through the real build_command_list; registered (method, args) lists and exception classes compared with the model and with an independent recogniser; build_tool is checked to attempt no connection on any error and to read '-' from stdin.",
+   note="Trusted: Lean kernel + standard axioms; parameters: os.path.isfile, shlex token lists of files (shlex is modelled for C18), file contents, float(); int() and os.path.splitext as modelled. Hypothesis: acyclic script-file includes (a self-including file loops forever before connecting; compile is fuelled)."),
+ "C02": dict(engine="Rfb", design_ref="DESIGN.md section 8 C02",
+   technique="Lean 4 proof: for every well-formed encoder decision the decoder model consumes exactly the RFC byte layout and emits exactly the RFC's paint instructions (big-step Runs over the dispatch loop, induction over rectangles / sub-rectangles), composed with the canvas refinement (C12) and the channel mapping (C13) + pixel-exact differential correspondence against an independent conforming encoder",
+   text="Lean theorems (part A, proved): C02_rect - for Raw, CopyRect, RRE, CoRRE (any number of sub-rectangles), cursor, DesktopSize and the QEMU marker, any rectangle and pixel size, the model of the client consumes exactly header+body and emits exactly the specified paint instructions (CopyRect with the exact source and destination); C02_update / C02_update_lastrect - a whole FramebufferUpdate (exact count or LastRect) yields begin, all paint instructions in order, commit with the updated areas, and leaves the following bytes for the next message; C02_bell_after (the property's probe), C02_pf_kept, C02_desktop_geometry; pixels on the screen then follow from C12_refines and C13_modes. Hextile and ZRLE: specified in VncSpec (Hextile.lean), proofs in progress - until they are checked these two encodings rest on the correspondence only (level_note). Correspondence: an independent conforming encoder (harness/rfbgen.py: every encoding and sub-encoding, sizes around 16/64 multiples, palettes 2..127, runs around 255/256/510, all five pixel formats, LastRect/DesktopSize/QEMU) drives the real client; after every update the callback trace and every screen pixel are compared with what the encoder encoded and with the Lean model.",
+   note="Trusted: Lean kernel + standard axioms; zlib as a parameter; Pillow as exact pixel functions. PARTIAL: Hextile/ZRLE decoding is covered by the correspondence and the pixel oracle, their Lean theorems are not yet part of the audited set."),
 }
 
 def main():
@@ -75,8 +83,8 @@ def main():
         },
         "engines": [
             {"name": "Expect", "path": "lean/VncModel/Expect.lean", "serves_properties": ["C01", "C15", "C16", "C17"], "kind_free_text": "generic buffering machine + segmentation theorems (Lean)"},
-            {"name": "Script", "path": "lean/VncModel/Address.lean", "serves_properties": ["C20"], "kind_free_text": "pure functions of command.py (Lean model + theorems)"},
-            {"name": "Rfb", "path": "lean/VncModel/Rfb.lean", "serves_properties": ["C01", "C03", "C13", "C15"], "kind_free_text": "RFBClient receive path: every _handle* state as an instance of the buffering machine (Lean model + theorems)"},
+            {"name": "Script", "path": "lean/VncModel/Address.lean", "serves_properties": ["C10", "C20"], "kind_free_text": "pure functions of command.py (Lean model + theorems)"},
+            {"name": "Rfb", "path": "lean/VncModel/Rfb.lean", "serves_properties": ["C01", "C02", "C03", "C13", "C15"], "kind_free_text": "RFBClient receive path: every _handle* state as an instance of the buffering machine (Lean model + theorems)"},
             {"name": "Client", "path": "lean/VncModel/Keys.lean", "serves_properties": ["C04", "C05", "C12", "C19"], "kind_free_text": "VNCDoToolClient key / pointer operations and serialisers (Lean model + theorems)"},
             {"name": "harness", "path": "harness/", "serves_properties": sorted(CLAIMED), "kind_free_text": "Python: implementation drivers, generators, correspondence with the Lean driver (lean/Driver/Main.lean), spec oracles"},
         ],
